@@ -55,6 +55,16 @@ class Registry:
         return c
 
     def classdecl(self, name, fields, file=None):
+        """declare (or extend) the modelled fields of a class: several contract modules may each name the fields they need"""
+        old = self.classes.get(name)
+        if old is not None and not old.get("record"):
+            merged = dict(old["fields"])
+            for f, t in fields.items():
+                if f in merged and merged[f] != t:
+                    raise ValueError("class %s: field %s declared with two types (%r, %r)" % (name, f, merged[f], t))
+                merged[f] = t
+            self.classes[name] = {"fields": merged, "file": file or old.get("file")}
+            return
         self.classes[name] = {"fields": dict(fields), "file": file}
 
     def record(self, name, fields):
